@@ -101,6 +101,17 @@ var _ imap.UID // used by //@ func headers
 //@ func (dec *Decoder) ExpectNumber64(ptr *int64) (result bool)
 //@   modifies ptr
 //@   ensures !result ==> dec.err != nil
+//@   ensures result ==> *ptr >= 0
+
+// Number64 parses a non-empty run of decimal digits with strconv.ParseInt; that
+// the value of an all-digit string is non-negative is the assumed contract of
+// ParseInt (numberStr yields digits only).
+//
+//@ func (dec *Decoder) Number64(ptr *int64) (result bool)
+//@   trusted
+//@   modifies ptr
+//@   ensures result ==> *ptr >= 0
+//@   ensures old(dec.err) != nil ==> dec.err == old(dec.err)
 
 //@ func (dec *Decoder) ExpectModSeq(ptr *uint64) (result bool)
 //@   modifies ptr
@@ -271,9 +282,6 @@ func FlagGrammar(s string) bool {
 //@   modifies ptr
 
 //@ func (dec *Decoder) Number(ptr *uint32) (result bool)
-//@   modifies ptr
-
-//@ func (dec *Decoder) Number64(ptr *int64) (result bool)
 //@   modifies ptr
 
 //@ func (dec *Decoder) ModSeq(ptr *uint64) (result bool)
